@@ -84,6 +84,18 @@ Definition binary_encode (bw : N) (offsets data : list N) : option (list (list N
   | None => None
   end.
 
+(* Known finding (KNOWN_FINDINGS.txt, class Known_C26_binary_doubling_overshoot): inputs on which
+   the chunking rule emits a chunk above MAX_MINIBLOCK_BYTES, or whose recorded u16 sizes no longer
+   add up to the buffer (the `as u16` cast truncated a chunk above 65535 bytes). *)
+Definition Known_C26_binary_doubling_overshoot (i : N * list N * list N) : bool :=
+  let '(bw, offsets, data) := i in
+  match binary_encode bw offsets data with
+  | Some ([buf], chunks) =>
+      existsb (fun c : chunk => MAX_MINIBLOCK_BYTES <? sum_N (fst c)) chunks
+      || negb (sum_N (map (fun c : chunk => sum_N (fst c)) chunks) =? nlen buf)
+  | _ => false
+  end.
+
 (* BinaryMiniBlockDecompressor::decompress of one chunk: (rebased offsets, bytes) *)
 Definition binary_decode (bw : N) (bufs : list (list N)) (n : N) : outcome (list N * list N) :=
   match bufs with
